@@ -104,6 +104,10 @@ def build_templates(seed, n_rand, n_pert_each):
         for use in ("    print(%s)\n", "    %s\n    print(1)\n", "    r := %s\n    print(r)\n"):
             base.append({"name": "generic_tuple_%s_%d" % (n, len(use)), "no_perturb": True, "role": "generic function returning tuple arithmetic over its parameters (%s)" % n, "dom": {"a": (0, 3)},
                          "text": fn_ + "start :: fn do\n    print(?a)\n" + (use % call) + "end\n"})
+    for n, text in (("plain", "base :: ?a\nlimit : int : limit + base\nstart :: fn do\n    print(limit)\nend\n"), ("closure", "total : int : (fn -> int do ret total * 2 end)()\nstart :: fn do\n    print(total + ?a)\nend\n"),
+                    ("blob", "Pt :: blob {\n    x: int,\n    y: int,\n}\norigin :: Pt { x: ?a, y: origin.x }\nstart :: fn do\n    print(origin.y)\nend\n"),
+                    ("call_argument", "twice :: fn f: fn int -> int -> fn int -> int do\n    ret fn n: int -> int do ret f(f(n)) end\nend\nstep : fn int -> int : twice(step)\nstart :: fn do\n    print(step(?a))\nend\n")):
+        base.append({"name": "global_initialiser_reads_itself_" + n, "no_perturb": True, "role": "global initialiser that reads the global it initialises (%s)" % n, "dom": {"a": (0, 3)}, "text": text})
     base.append({"name": "if_value_with_a_branch_that_has_no_value", "no_perturb": True, "role": "if used as a value, one branch ends in a statement", "dom": {"a": (0, 4)},
                  "text": "start :: fn do\n    y := 0\n    x :: if ?a > 2 do 1 else y = 2 end\n    print(x + 1)\nend\n"})
     base.append({"name": "function_parameter_used_at_two_types", "no_perturb": True, "role": "function-typed parameter with wildcard type called at two types", "dom": {"a": (0, 3)},
